@@ -73,6 +73,8 @@ let handle line =
     (* (eof) between transactions: the end of the file of one -f option; KIND D = a deferred posting <Account> *)
     let xs = List.map (function
         | L (A "xact" :: ps) -> JXact (List.map (post_of cp0) ps)
+        (* (xact-in (N1HEX .. NkHEX) posts): written inside `apply account N1` .. `apply account Nk` *)
+        | L (A "xact-in" :: L stack :: ps) -> JXact (under (List.map (fun a -> str_of_hex (atom a)) stack) (List.map (post_of cp0) ps))
         | L [A "eof"] -> JEndOfFile
         | _ -> failwith "xact") xacts in
     let run ord =
